@@ -71,6 +71,8 @@ static CaseResult program_case(Tape &t, bool client)
 	o1.force_residue = true; o1.residue_mode = 1; o1.residue_byte = 0; o1.tr = &t1;
 	std::string desc;
 	gen_residue(t, o2, "t.example.com", client, desc); o2.tr = &t2; o2.variant = 1;
+	// server scenario, one case in three: besides the residue, the HISTORY is perturbed (see c05_case.h)
+	if (!client && t.chance(1, 3)) { o1.perturb = o2.perturb = true; o1.perturb_addr = o2.perturb_addr = sim::Addr::v4(203, 0, 113, 200, 7777); desc += " + perturbed history"; }
 	Tape a = t, b = t;
 	CaseResult ra = client ? c06::run_case(a, o1) : c05::run_case(a, o1);
 	CaseResult rb = client ? c06::run_case(b, o2) : c05::run_case(b, o2);
@@ -79,10 +81,11 @@ static CaseResult program_case(Tape &t, bool client)
 	r.render = std::string(client ? "client: " : "server: ") + "residue B = " + desc + " | " + ra.render.substr(0, 1100);
 	std::string d = first_difference(t1, t2);
 	if (getenv("VERIF_TRACE")) for (size_t i = 0; i < std::max(t1.ev.size(), t2.ev.size()); i++) fprintf(stderr, "#%zu %s\n   A %.6f %.150s\n   B %.6f %.150s\n", i, (i < t1.ev.size() && i < t2.ev.size() && t1.ev[i] == t2.ev[i]) ? "same" : "DIFF", i < t1.at.size() ? t1.at[i] / 1e6 : -1.0, i < t1.ev.size() ? t1.ev[i].c_str() : "-", i < t2.at.size() ? t2.at[i] / 1e6 : -1.0, i < t2.ev.size() ? t2.ev[i].c_str() : "-");
-	if (!d.empty()) r.fail(client ? "C12:client-depends-on-residue" : "C12:server-depends-on-residue", std::string("the ") + (client ? "client" : "server") + " behaved differently for identical datagrams when only the bytes beyond the datagram in its receive buffer differed: " + d + "\n" + r.render);
+	if (!d.empty()) r.fail(client ? "C12:client-depends-on-residue" : "C12:server-depends-on-residue", std::string("the ") + (client ? "client" : "server") + " behaved differently for identical datagrams when only the bytes beyond the datagram in its receive buffer" + std::string(o1.perturb ? " and the text of earlier, harmless echo requests from an uninvolved address" : "") + " differed: " + d + "\n" + r.render);
 	bool shape = false; for (auto &c : ra.classes) if (c == "residue-sensitive-shape") shape = true;
 	r.nontrivial = shape;
 	r.cls(client ? "layer2:client" : "layer2:server");
+	if (o1.perturb) r.cls("layer2:history-perturbed");
 	if (shape) r.cls("residue-sensitive-shape");
 	return r;
 }
